@@ -129,14 +129,18 @@ def odesc(o):
 
 
 def b2(chk, emitted):
-    eq = pu.bench_equipment('ex')
-    mi = pu.mode_info(eq, 'Voyager', 'mode 1')
-    if any(e['o']['mi'] != mi for e in emitted):
-        raise Machinery(f'MC_PlanReport.MI differs from the library figures of Voyager mode 1: {mi}')
+    libs = [pu.bench_equipment('ex'), pu.bench_equipment('ex-op')]      # same type / mode names, different figures
+    mis = [pu.mode_info(q, 'Voyager', 'mode 1') for q in libs]
+    if any(e['o']['mi'] not in mis for e in emitted) or mis[0] == mis[1]:
+        raise Machinery(f'MC_PlanReport.MI differs from the library figures of Voyager mode 1: {mis}')
     seen = set()
-    for x in emitted:
+    # the exports alternate between the two libraries in one process
+    by_lib = [[x for x in emitted if x['o']['mi'] == m] for m in mis]
+    order = [x for pair in zip(*by_lib) for x in pair] + by_lib[0][len(by_lib[1]):] + by_lib[1][len(by_lib[0]):]
+    for x in order:
         o, e, row = x['o'], x['e'], x['row']
-        key = odesc(o) + f'|minsnr={o["rx"]["snrmin"]}'
+        eq = libs[mis.index(o['mi'])]
+        key = odesc(o) + f'|minsnr={o["rx"]["snrmin"]}|lib={mis.index(o["mi"])}'
         chk.case(key, nontrivial=o['reason'] not in ('NO_PATH', 'NO_PATH_WITH_CONSTRAINT',
                                                      'NO_FEASIBLE_BAUDRATE_WITH_SPACING', 'NO_COMPUTED_SNR'))
         seen.add((o['reason'], o['bidir'], len(o['members']), len(o['nm'])))
@@ -220,6 +224,8 @@ def b3(chk):
     from gnpy.tools.json_io import load_gnpy_json
     rng = random.Random(chk.seed + 19)
     jobs = [('meshV2+island', name, {'path-request': reqs}) for name, reqs in crafted()]
+    # the same batch exported under an operator's library (same type / mode names, other thresholds and costs)
+    jobs.insert(1, ('meshV2+island%op', 'crafted:every-outcome:operator-library', {'path-request': crafted()[0][1]}))
     nrand = 6 if chk.tier == 'quick' else 240
     for b in range(nrand):
         jobs.append(('meshV2+island', f'seeded:{b}', {'path-request': pu.loadable('meshV2+island', pu.random_batch(rng, 'meshV2+island', f'q{b}-', 12))}))
@@ -370,6 +376,8 @@ def run(chk):
     chk.cov['rounding_slack_micro_units'] = 1
     chk.cov['rule'] = ('B2: one case per enumerated outcome (non-trivial when a path is reported); '
                        'B3: one case per recorded batch')
+    chk.assume('two equipment libraries are used in one process (shipped figures; operator: every mode OSNR +1.5 dB, cost '
+               '2c+1, same names): every row must state the figures of the library its export was given')
     chk.assume('request ids do not contain the joining string " | "')
     chk.assume('a value exactly on a rounding tie (x.xx5) may be stated as either neighbour')
     chk.assume('requests reported together must be identical for the user (same ends, transponder, mode, spacing, power, '
